@@ -20,11 +20,11 @@ CLAIMS = {
             'trusted: as C01; wf clause unique_at_line assumed; code-lens / call-hierarchy / CLI counts glue not covered', '§5-C04'),
     'C16': ('proof', 'Scope mismatch: detect_scope_mismatches_in_file (after fix 898ebb4) is proved sound AND complete against is_mismatch — a pair (F, D) is reported iff D is the definition the proved resolver selects from F\'s file for one of F\'s dependencies (own name -> overridden parent) and rank(F.scope) > rank(D.scope). Cycles: compute_fixture_cycles is proved SOUND (every reported path is a closed chain of the first-definition name graph, reported on the right fixture) and terminating (lexicographic measure over the explicit DFS stack); completeness and run-independence do not hold on the real code: known findings F-16b (graph from first()) and F-16c (hash-ordered DFS roots).',
             'trusted: as C01; HashMap/HashSet shims; sort/join key model; derive(PartialOrd) via Kani', '§5-C16'),
-    'C17': ('proof', 'Precision clause, availability part: is_available_fixture is proved to return true exactly when some registered definition of the name is in the same file, in a conftest.py whose directory is a prefix of the file path, a plugin or third-party definition; lemmas: a name no fixture carries is never available, a name is never available merely because an unrelated module defines it. Scanner (unit undeclared_scan): scan_function_body_for_undeclared_fixtures, collect_local_variables, bind_local, visit_stmt_for_names, visit_expr_for_names are proved equal to recursive spec functions over the real AST (every field of every pushed finding, frame); lemmas from the property text: a finding is never a declared parameter, a module-level/imported name, an unavailable name, or a name with a recorded binder on an earlier line however often it is re-bound (after fixes F-17a/b); every plain use in the visited forms (call target/argument incl. keyword/starred, attribute base, boolean/conditional/binary/unary/compare operand, subscript/slice, list/tuple/set/dict element; in expression/assignment/return/if/while/for/with/try/raise/assert statements) is flagged at exactly (line, col(start), col(end)) (after fix F-17c); what remains unvisited/unrecorded is stated as lemmas and listed as known findings F-17d/F-17e. The quick fix is not covered.',
+    'C17': ('proof', 'Precision clause, availability part: is_available_fixture is proved to return true exactly when some registered definition of the name is in the same file, in a conftest.py whose directory is a prefix of the file path, a plugin or third-party definition; lemmas: a name no fixture carries is never available, a name is never available merely because an unrelated module defines it. Scanner (unit undeclared_scan): scan_function_body_for_undeclared_fixtures, collect_local_variables, bind_local, visit_stmt_for_names, visit_expr_for_names are proved equal to recursive spec functions over the real AST (every field of every pushed finding, frame); lemmas from the property text: a finding is never a declared parameter, a module-level/imported name, an unavailable name, or a name with a recorded binder on an earlier line however often it is re-bound (after fixes F-17a/b); every plain use in the visited forms (call target/argument incl. keyword/starred, attribute base, boolean/conditional/binary/unary/compare operand, subscript/slice, list/tuple/set/dict element; in expression/assignment/return/if/while/for/with/try/raise/assert statements) is flagged at exactly (line, col(start), col(end)) (after fix F-17c); what remains unvisited/unrecorded is stated as lemmas and listed as known findings F-17d/F-17e. The quick-fix handler (unit handlers_diag) is under contract structurally: one action per matching undeclared diagnostic, one empty-range TextEdit on the enclosing function's recorded line; the text search that places it is uninterpreted (not covered).',
             'trusted: as C01 plus Path helper expressions moved into external_body helpers with assumed contracts', '§5-C17'),
     'C18': ('proof', 'The offered-set algebra of completion is proved exactly: filter_and_enrich_fixtures returns available filtered by !excluded in order, is_fixture_excluded/should_exclude_fixture/fixture_sort_priority equal their specs (self/cls, declared params, current fixture, narrower scope; same-file 0 < project 1 < plugin 2 < third-party 3); lemmas: every name once, excluded never offered. The AST path of get_completion_context (get_func_context, get_function_completion_context, check_decorator_context, cursor_inside_usefixtures_call) is proved exactly: first enclosing test/fixture function in statement order incl. class recursion, declared_params = all parameter kinds, scope of the first scoped fixture decorator; the text fallback is uninterpreted.',
             'trusted: extractor incl. //@item, format! builders uninterpreted, derive(PartialOrd) via Kani', '§5-C18'),
-    'C19': ('proof', 'Config::from_raw is proved to keep exactly the valid diagnostic codes and valid glob patterns element-wise (order preserved, other settings passed through) and is_diagnostic_disabled to be membership; lemmas: bad entries are ignored individually, settings are independent. Config::load and Config::parse are under contract: the configuration is a function of the whole pyproject.toml text, defaults when the file is missing, unreadable or does not parse (no panic; lemma: under the defaults no code is disabled). Every analysis moves the version that keys the diagnostic caches (unit analyze); closing / evicting touches no index map (unit memo). The publish handler and the TOML library are not covered.',
+    'C19': ('proof', 'Config::from_raw is proved to keep exactly the valid diagnostic codes and valid glob patterns element-wise (order preserved, other settings passed through) and is_diagnostic_disabled to be membership; lemmas: bad entries are ignored individually, settings are independent. Config::load and Config::parse are under contract: the configuration is a function of the whole pyproject.toml text, defaults when the file is missing, unreadable or does not parse (no panic; lemma: under the defaults no code is disabled). Every analysis moves the version that keys the diagnostic caches (unit analyze); closing / evicting touches no index map (unit memo). The publish handler is under contract (unit handlers_diag): what publish_diagnostics_for_file hands to the client is, field by field, the undeclared findings of the file ++ its cycles ++ its scope mismatches, each kind present exactly when its code is not disabled (lemmas: a disabled code contributes nothing and does not affect the other kinds; every finding is published with exactly its range; no findings -> the empty list, i.e. cleared). main.rs did_open/did_change glue and the TOML library are not covered.',
             'trusted: glob::Pattern::new abstract, slice::contains / String==str / filter_map wrapper assumed', '§5-C19'),
     'C05': ('proof', 'compute_available_fixtures (ten hash-ordered loops, the conftest walk, the final sort) is proved against avail_post: sorted by name, one entry per name, every entry is avail_pick of its name (soundness) and every visible name has an entry (completeness); resolve_fixture_for_file == op_resolve_ff; lemmas: the per-file view agrees with go-to-definition (op_resolve) whenever the file defines the name at most once and the import tests agree — the hypotheses are exactly the known findings F-05a (same-file redefinition: first vs last) and F-05b (resolve_fixture_for_file is a different resolver).',
             'trusted: as C01 plus sort/Path specs; the handlers\' choice of resolver is a table, not proved', '§5-C05'),
@@ -41,7 +41,7 @@ CLAIMS = {
     'C14': ('proof', 'Closure part: get_imported_fixtures / compute_imported_fixtures / is_fixture_imported_in_file (mutually recursive through the visited set) are proved to terminate on every import graph incl. cycles and self imports (measure: readable files not yet visited), to return only names of the import closure of the file (star imports and pytest_plugins entries transitively, explicit imports by name) and, for a top-level call under an exact memo, exactly that closure (DFS completeness); memo discipline proved (only top-level results are stored, keyed by content hash + version). Extraction part (unit imports_extract): extract_fixture_imports / extract_pytest_plugins / is_standard_library_module are proved equal to spec functions over the real AST (top-level import / from-import statements incl. star and relative forms, stdlib filter on the first component, the last non-annotated pytest_plugins assignment with string / list / tuple forms). Module resolution on the file system and venv/plugin discovery are not covered; the composition of the two units is not mechanised.',
             'trusted: parser, module resolution on the file system (abstract), string-operation specs of the extraction unit, finite universe of readable files, HashSet shim', '§5-C14'),
     'C15': ('proof', 'Line/column arithmetic is proved exactly: build_line_index == the ascending newline positions (+1), get_line_from_offset / get_char_position_from_offset return the unique (line, column) with line_start + column == offset, for every offset (no panic); lemmas: monotone, single-line tokens give start <= end with the token length, round trip; the column is the BYTE count since the line start — equal to the UTF-16 column only for ASCII prefixes: known finding F-15a with a proved counterexample. Unit visit: every recorded span (definition name, parameters, usefixtures / indirect string content) as a function of the parser ranges; unit position: a cursor is attributed to a usage iff start_char <= character < end_char on its line.',
-            'trusted: memchr_iter / binary_search assumed specs; handler-built Range literals not covered (unit handlers_nav when registered)', '§5-C15'),
+            'trusted: memchr_iter / binary_search assumed specs; handler-built ranges are under contract in units handlers_nav / handlers_nav2 / handlers_diag (columns passed through unchanged; u32 truncation excluded by explicit hypotheses)', '§5-C15'),
     'C10': ('proof', 'Sequential clauses only: the contract of analyze_file_internal gives, for both orders of {scan analyses F from disk, editor analyses F from the buffer}, the resulting entries of F; lemma restore: one further analyze_file(F, t) makes F\'s entries exactly those of t; lemma fresh-keeps-old: analyze_file_fresh on a non-empty index keeps the old entries — known finding F-10 (open then scan yields both).',
             'no thread model: interleavings are out of reach (see DESIGN §2)', '§5-C10'),
     'C20': ('proof', 'compute_definition_usage_counts (including its resolution memo) and get_unused_fixtures are proved exactly: a key (file, name) has a count iff a definition of the name lives in the file, the count is the number of recorded usages whose resolution (the same resolve_usage as go-to-definition / find-references) lands in that file under that name, and the unused list is the sorted listing of the project, non-autouse definitions whose key has count 0; lemmas: listed iff ..., count == |references| when the file defines the name once, result is a function of the index (reproducible). Known finding F-20: same-file redefinitions share a count.',
